@@ -22,3 +22,11 @@ func (p *PacketConn) SetMulticastLoopback(on bool) error {
 	p.e.Loopback = on
 	return nil
 }
+
+// further ipv4.PacketConn options a change to the library may start to use: accepted, no effect
+func (p *PacketConn) LeaveGroup(ifi *net.Interface, group net.Addr) error { return nil }
+func (p *PacketConn) SetMulticastTTL(ttl int) error                       { return nil }
+func (p *PacketConn) SetMulticastInterface(ifi *net.Interface) error      { return nil }
+func (p *PacketConn) SetTTL(ttl int) error                                { return nil }
+func (p *PacketConn) SetTOS(tos int) error                                { return nil }
+func (p *PacketConn) Close() error                                        { return p.e.Close() }
